@@ -2159,9 +2159,12 @@ class GlobalOp(IRDLOperation):
         addr_space = attrs.pop("addr_space", IntegerAttr(0, 32))
         alignment = attrs.pop("alignment", None)
         section = attrs.pop("section", None)
-        assert isinstance(addr_space, IntegerAttr)
-        assert alignment is None or isinstance(alignment, IntegerAttr)
-        assert section is None or isinstance(section, StringAttr)
+        if not isinstance(addr_space, IntegerAttr):
+            parser.raise_error("expected integer attribute for `addr_space`")
+        if not (alignment is None or isinstance(alignment, IntegerAttr)):
+            parser.raise_error("expected integer attribute for `alignment`")
+        if not (section is None or isinstance(section, StringAttr)):
+            parser.raise_error("expected string attribute for `section`")
         op = cls(
             global_type=global_type,
             sym_name=sym_name,
